@@ -856,6 +856,8 @@ def run_history_impl(name, hops):
                 else:
                     try:
                         xml = introspection.generateIntrospectionXML(h[1], {h[1]: Exporter([obj])})
+                        if not isinstance(xml, str):
+                            raise TypeError('generateIntrospectionXML returned %r for an exported path' % (xml,))
                     except Exception:
                         answers.append([0])
                         info['xml_raises'] += 1
